@@ -4,6 +4,8 @@ import (
 	"fmt"
 	"os"
 	"path/filepath"
+
+	"github.com/mutagen-io/mutagen/pkg/verifhook"
 )
 
 const (
@@ -23,6 +25,8 @@ func WriteFileAtomic(path string, data []byte, permissions os.FileMode) error {
 		return fmt.Errorf("unable to create temporary file: %w", err)
 	}
 
+	verifhook.Point("atomic.created", -1, path)
+
 	// Write data.
 	if _, err = temporary.Write(data); err != nil {
 		temporary.Close()
@@ -30,11 +34,15 @@ func WriteFileAtomic(path string, data []byte, permissions os.FileMode) error {
 		return fmt.Errorf("unable to write data to temporary file: %w", err)
 	}
 
+	verifhook.Point("atomic.written", -1, path)
+
 	// Close out the file.
 	if err = temporary.Close(); err != nil {
 		os.Remove(temporary.Name())
 		return fmt.Errorf("unable to close temporary file: %w", err)
 	}
+
+	verifhook.Point("atomic.closed", -1, path)
 
 	// Set the file's permissions.
 	if err = os.Chmod(temporary.Name(), permissions); err != nil {
@@ -42,11 +50,15 @@ func WriteFileAtomic(path string, data []byte, permissions os.FileMode) error {
 		return fmt.Errorf("unable to change file permissions: %w", err)
 	}
 
+	verifhook.Point("atomic.chmodded", -1, path)
+
 	// Rename the file.
 	if err = Rename(nil, temporary.Name(), nil, path, true); err != nil {
 		os.Remove(temporary.Name())
 		return fmt.Errorf("unable to rename file: %w", err)
 	}
+
+	verifhook.Point("atomic.renamed", -1, path)
 
 	// Success.
 	return nil
